@@ -26,7 +26,13 @@ def main():
     if use_wt:
         wt = "/tmp/se_wt_%s_%d" % (sid, os.getpid())
         subprocess.run(["git", "-C", "/repo", "worktree", "add", "--detach", wt, "HEAD"], check=True, capture_output=True)
-        subprocess.run(["git", "-C", wt, "apply", os.path.join(d, "patch.diff")], check=True)
+        r = subprocess.run(["git", "-C", wt, "apply", os.path.join(d, "patch.diff")])
+        if r.returncode != 0:
+            # the patch no longer applies to /repo HEAD (a later fix: commit touched the same lines): rebase it
+            # (git apply --3way in a worktree, keep the agent's file as patch.original.diff) and evaluate again
+            subprocess.run(["git", "-C", "/repo", "worktree", "remove", "--force", wt], capture_output=True)
+            print("patch does not apply to /repo HEAD: %s" % sid)
+            return 2
         env["VERIF_REPO"] = wt
     else:
         st = subprocess.run(["git", "-C", "/repo", "status", "--porcelain", "--untracked-files=no"], capture_output=True, text=True).stdout.strip()
